@@ -299,6 +299,11 @@ def _call(t, c):
             if not isinstance(n, int) or isinstance(n, bool) or n < 0:
                 c.notes.add("substring-negative-length")
                 return U
+            if n >= 2 ** 31 - 2:
+                # engines read SUBSTR's length as a 32-bit integer (SQLite wraps 2**31 to a negative
+                # length): not the library's doing, so the row is left undecided
+                c.notes.add("substring-length-beyond-32-bit")
+                return U
             return s[i:i + n]
         return s[i:]
     if name == "matchesPattern":
